@@ -239,11 +239,20 @@ func (r *RPCReadResponse) DecodeFrom(d *types.Decoder) {
 		d.SetErr(fmt.Errorf("data length (%v) exceeds sector size", dataLen))
 		return
 	}
-	if uint64(cap(r.Data)) < dataLen {
-		r.Data = make([]byte, dataLen)
+	if uint64(cap(r.Data)) >= dataLen {
+		r.Data = r.Data[:dataLen]
+		d.Read(r.Data)
+	} else {
+		// grow as the data arrives, so that a short message claiming a full
+		// sector does not cost a full sector of memory
+		r.Data = r.Data[:0]
+		for rem := dataLen; rem > 0 && d.Err() == nil; {
+			n := min(rem, 1<<16)
+			r.Data = append(r.Data, make([]byte, n)...)
+			d.Read(r.Data[uint64(len(r.Data))-n:])
+			rem -= n
+		}
 	}
-	r.Data = r.Data[:dataLen]
-	d.Read(r.Data)
 
 	types.DecodeSlice(d, &r.MerkleProof)
 }
